@@ -74,7 +74,11 @@ C04adv(c) ==
            /\ Q!SameAst(Q!NormBetween(Q!Subst(c.param.read.ast, c.param.params)), Q!NormBetween(c.inline.read.ast)) THEN <<>>
         ELSE <<Fail("C04", c, "substituting the parameters does not give the inline predicate",
                     IF KF!KF_C04_MixedKindRange(c.inline.read.ast, c.param.read.ast, c.param.params) THEN "C04-mixed-kind-range" ELSE "none")>>)
-C04(c) ==
+\* a result is a value: the parameter slice a call returned reads the same after later calls of the library (the recorder
+\* projects the very slice again after rendering the substituted query and two unrelated ones)
+Stable(c) == IF c.param.out # "ok" \/ c.param.params_later = c.param.params THEN <<>>
+             ELSE <<Fail("C04", c, "the parameters a call returned read differently after later calls of the library", "none")>>
+C04core(c) ==
   IF c.kind = "adv" \/ c.form = "big" THEN
      C04adv(c) \o (IF c.kind = "adv" \/ c.inline.out # "ok" \/ c.param.out # "ok" \/ ParamsAreValues(c) THEN <<>>
                    ELSE <<Fail("C04", c, "the parameters are not the query's values in order with their kinds", "none")>>)
@@ -88,6 +92,8 @@ C04(c) ==
         ELSE <<Fail("C04", c, "substituting the parameters does not give a predicate equivalent to the inline SQL", KfC04(c))>>)
     \o (IF c.alt_param.out = "none" \/ (c.alt_param.out = "ok" /\ c.alt_param.text = c.param.text) THEN <<>>
         ELSE <<Fail("C04", c, "the SQL text depends on the values", "none")>>)
+
+C04(c) == C04core(c) \o Stable(c)
 
 \* ---- C02: one confined Boolean expression; user text only in constants / quoted identifiers -----------
 SetOf(sq) == {sq[i] : i \in DOMAIN sq}
